@@ -17,7 +17,7 @@ func init() {
 	core.Register(&core.Check{
 		ID:    "C14",
 		Level: "fault_enumeration",
-		Rule: "generated programs made of segments 'marker print - loop nest or call chain without any built-in call - marker print' with known iteration and call counts, terminating and endless (while true, unbounded recursion, looping handlers, idle loops whose body is a comment or blank line, at top level and in functions), with read, sleep, passing and failing tests and graphics between segments; the uninterrupted run T is recorded with yield marks, then the program is re-run once per stop point k (every yield up to 300 per program in quick, up to 3000 in thorough, plus the last 50) with the stop flag raised inside yield #k, and once per effect with the flag raised from inside the platform call; oracles: density (yields between markers >= iterations + calls; never more than 64 evaluation steps without a yield on the hook) and stop (no yield after the stop, effects are T's prefix plus at most the step in flight, result 'stopped', only the test summary may follow). distinct = distinct (program, stop point) pairs",
+		Rule:  "generated programs made of segments 'marker print - loop nest or call chain without any built-in call - marker print' with known iteration and call counts, terminating and endless (while true, unbounded recursion, looping handlers, idle loops whose body is a comment or blank line, at top level and in functions), with read, sleep, passing and failing tests and graphics between segments; the uninterrupted run T is recorded with yield marks, then the program is re-run once per stop point k (every yield up to 300 per program in quick, up to 3000 in thorough, plus the last 50) with the stop flag raised inside yield #k, and once per effect with the flag raised from inside the platform call; oracles: density (yields between markers >= iterations + calls; never more than 64 evaluation steps without a yield on the hook) and stop (no yield after the stop, effects are T's prefix plus at most the step in flight, result 'stopped', only the test summary may follow). distinct = distinct (program, stop point) pairs",
 		Assumptions: []string{
 			"a loop inside a built-in that neither yields nor passes through eval (D14's native repetition loop) is not reachable by this monitor",
 			"the stop flag is raised only from inside Yield or inside a platform call, as the browser does (single thread)",
